@@ -1,4 +1,6 @@
 """Property -> rules mapping."""
+import os
+
 from .core import Ctx
 from .rules import k1, reclaim, schemes, seqlock, vyukov, harris, queues, deque, leftright, markedptr, progress, typestate
 
@@ -277,6 +279,9 @@ def run(prop, tier):
         return 2
     ctx = Ctx(prop, tier)
     expl, notdec = PROPS[prop](ctx)
+    if tier == "thorough" and not ctx.violations and not os.environ.get("XV_NO_SENTINELS"):
+        from . import sentinels
+        ctx.sentinels = sentinels.run(ctx)
     return ctx.finish(expl, assumptions=[
         "clang 14 front end: AST, constant evaluation and CFG construction are trusted",
         "the instantiation matrix (/verif/inst + /repo/test TUs) instantiates the code paths of interest; a function that is "
